@@ -68,4 +68,12 @@ def compute_domains_affine_eq(domains: NDArray, parameters: NDArray) -> int:
             domains[i, MAX] = min(domains[i, MAX], new_max)
             if domains[i, MIN] > domains[i, MAX]:
                 return PROP_INCONSISTENCY
+    # one round of interval reasoning can instantiate all the variables to a tuple that is not a solution
+    value = parameters[-1]
+    for i, c in enumerate(parameters[:-1]):
+        if domains[i, MIN] < domains[i, MAX]:
+            return PROP_CONSISTENCY
+        value -= c * domains[i, MIN]
+    if value != 0:
+        return PROP_INCONSISTENCY
     return PROP_CONSISTENCY
